@@ -111,11 +111,7 @@ func (a *AgentService) SendResponse(AgentInfo any, Header agent.Header) []byte {
 
     logger.Debug(AgentResponse)
 
-    if a.client.Responses == nil {
-        a.client.Responses = make(map[string]chan []byte)
-    }
-
-    a.client.Responses[randID] = make(chan []byte)
+    var channel = a.client.responseAdd(randID)
 
     a.client.Mutex.Lock()
     err := a.client.Conn.WriteJSON(AgentResponse)
@@ -123,16 +119,13 @@ func (a *AgentService) SendResponse(AgentInfo any, Header agent.Header) []byte {
 
     if err != nil {
         logger.Error("Failed to write json to websocket: " + err.Error())
+        a.client.responseDrop(randID)
         return nil
     }
 
-    var data []byte
-    if channel, ok := a.client.Responses[randID]; ok {
-        data = <-channel
+    var data = <-channel
 
-        close(a.client.Responses[randID])
-        delete(a.client.Responses, randID)
-    }
+    a.client.responseDrop(randID)
 
     return data
 }
